@@ -254,27 +254,32 @@ ADDED = {
     "C08": "Also: decoration with Options(addition=True) / Options(collect_errors=True), unannotated parameters, @utype.parse above @staticmethod, "
            "generator functions as static / class methods of a parsed class, falsy generator return values, sequences of complete uses of one "
            "decorated generator function.",
-    "C10": "Also: the axes ignore_constraints=True and max_params=1, a Schema with a typed property computed from a field.",
+    "C10": "Also: the axes ignore_constraints=True and max_params=1, a Schema with a typed property computed from a field, "
+           "data-first search with ignore_alias_conflicts, functions with positional-only parameters.",
     "C11": "Also: element types failing with OverflowError / decimal.InvalidOperation, containers reached through Optional / Union / any_of, fields "
            "required in a mode with a default, typed properties with a getter on_error, runtime policies differing from the declared ones for "
            "extra keys; sequences up to length 7 in the thorough tier.",
     "C12": "Also: lists / tuples of data-class instances and of non-dict mappings, memoryviews, Options(addition=None, **flags), the caller's "
            "no_explicit_cast for data-class targets; every atom wrapped in one- and two-element containers in the thorough tier.",
     "C13": "Also: programs with properties (getter / setter of different types), fields combining mode with mode-string no_input / no_output, "
-           "Final fields, class options no_default / defer_default / ignore_required.",
+           "Final fields, class options no_default / defer_default / ignore_required. Recorded & / ^ / bool findings only cover their "
+           "computed sub-class (last argument's schema holds, valid under >= 2 branches, the same number as int passes).",
     "C14": "Also: two-level container shapes (Set[Tuple], List[Set], Dict[str, Inner], FrozenSet ...), unorderable and name-crossing Enums, "
            "Optional[int] elements, Decimals with exponents far outside the float range; all value pairs in the thorough tier.",
     "C15": "Also: property names colliding after sanitising (both orders), keywords with falsy values, prefixItems with unconstrained members, "
            "every ordered pair of scalar schemas under each combinator in the thorough tier; allOf findings are sub-classified "
-           "(last member wins = recorded design finding).",
+           "(last member wins = recorded design finding). Crosscut schemas: enum / const beside other keywords, an explicit type beside a "
+           "combinator, property counts with undeclared keys, dependentRequired over undeclared names, equal members; oneOf findings are "
+           "sub-classified by root cause (a value returned although two member types took the input is never covered).",
     "C16": "Also: raising detectors, classes + metaclass, a non-class target, re-registration of one function under other criteria, a detector "
            "that registers during the scan, a virtual subclass of an abstract class.",
     "C17": "Also: twin scenarios (a program with forward references executed piecewise with probes against its direct-reference twin): constrained "
            "references, partial first calls of functions, *args / **kwargs / return / generator references (module level, local, postponed "
-           "annotations), two bases with the same pending name, generics inside logical types, subclasses.",
+           "annotations), two bases with the same pending name, generics inside logical types (also in a local class), shipped generics (types.Array['B']), subclasses, async generators, "
+           "result-only / params-only functions, a declared __init__ assigning a reference-typed field, Final / ClassVar under postponed annotations.",
     "C18": "Also: one-element-list wrapped nesting, decorated / DataClass / declared-__init__ declarations, limits coming from an override=True "
            "outer class, collecting declarations, four strictness option sets and a self-containing-input family for the cost part, whose "
-           "cut-off is the counting leaf itself (no timing).",
+           "cut-off is the counting leaf itself (no timing); the limit beside eight other options of the same declaration.",
     "C19": "Also: cast_keyword_str with non-str keys, a positional mapping together with a keyword, force_default kinds, shared types with two "
            "dependent fields, re-parsing an immutable input after the result was mutated.",
     "C20": "Also: Type['X'] fields, two classes sharing one typing-cached reference, a warm registry cache racing an unrelated registration; "
